@@ -4,7 +4,7 @@
 From Coq Require Import List ZArith Bool.
 From Coq.Strings Require Import Byte.
 Import ListNotations.
-From SV Require Import Text G_codes C05_Model C13_Model C13_Lemmas C13_Once C13_Depth.
+From SV Require Import Text G_codes C05_Model C13_Model C13_Rx C13_Lemmas C13_Once C13_Depth.
 Local Open Scope Z_scope.
 
 (* P0 span_contains_match + frames, for every match reported by matchall: forward matches come first, then backward ones;
